@@ -637,3 +637,12 @@ def s_option_eq(ip, st, fr, name, args, c, site):
         return one(ip.eq_values(st, a.xs[0], b.xs[0], inner[0] if inner else '?', site))
     ta, tb = ip.to_term(st, a), ip.to_term(st, b)
     return one(TRUE if ta == tb else T.typed(('call', 'Option::eq', (ta, tb)), 'bool'))
+
+
+@S('re:^std::cmp::impls::<impl std::cmp::PartialOrd<&B> for &A>::(le|lt|ge|gt)$')
+def s_ref_ord(ip, st, fr, name, args, c, site):
+    a = deref_all(ip, st, args[0])
+    b = deref_all(ip, st, args[1])
+    if isinstance(a, tuple) and isinstance(b, tuple):
+        return one(ip.simplify_bool(st, T.mk_cmp(name.rsplit('::', 1)[1], a, b)))
+    raise X.Unanalysable('ordering of non-scalar values through references', site)
